@@ -17,10 +17,12 @@ structure Extracted where
 
 def Extracted.empty : Extracted := ⟨[], [], []⟩
 
-/-- `extract_reuse_info` before the expressions are parsed -/
+/-- `extract_reuse_info` before the expressions are parsed.  A licence tag without a value
+    (`SPDX-License-Identifier: ` and nothing behind it) declares nothing: the library's parser returns
+    `None` for the empty text and the code skips it. -/
 def extractRawWith (endRe : Re) (text : Text) : Extracted :=
   let t := filterIgnore text
-  { lic := dedup (findSpdxTagWith endRe Generated.licenseTag t)
+  { lic := (dedup (findSpdxTagWith endRe Generated.licenseTag t)).filter (fun v => !v.isEmpty)
     con := dedup (findSpdxTagWith endRe Generated.contributorTag t)
     cpr := dedup ((splitLines t).filterMap fun l => (searchLineWith endRe l).map fun m => strip m.whole) }
 
